@@ -4,7 +4,13 @@
 //! completion queue, `SubmissionQueue` clones, `AsyncFd`s over fake descriptors, operations in
 //! five starting states, `ReadBufPool`s with `ReadBuf`s obtained through completed pool reads) is
 //! dropped in a generated order on the real a10 code, optionally with the kernel finishing
-//! in-flight requests in between. After every drop the driver reads what the simulated kernel
+//! in-flight requests in between. Two sorts of operation are not finished by a cancellation:
+//! operations on a "hard" descriptor (the simulated kernel does not cancel them: ASYNC_CANCEL
+//! answers EALREADY, the blanket REGISTER_SYNC_CANCEL leaves them in flight and fails with ETIME)
+//! and zero-copy sends (`send(buf).zc()`: a result completion with IORING_CQE_F_MORE, later a
+//! notification; three more starting states: result processed, abandoned with the result
+//! processed, abandoned with both processed). Kernel completions are generated at any point,
+//! also after the `Ring` and everything else is gone. After every drop the driver reads what the simulated kernel
 //! saw (enter / consumed submissions / register / munmap, in order), what the tracking allocator
 //! saw (frees of the operation states and of the pools' two page-aligned allocations), the
 //! synchronous closes, and whether the ring descriptor is still open. The same case is run on
@@ -12,10 +18,17 @@
 //!
 //! The oracle does not use the model: order of the logged calls against the munmaps and the
 //! descriptor close, the mmap lengths, the allocator, the simulator's tables; every case runs in
-//! a forked child so that touching unmapped memory is a crash of that case.
+//! a forked child so that touching unmapped memory is a crash of that case. The operation states
+//! and the buffers they own are watched by the tracking allocator in quarantine mode with a
+//! free-time probe: at the moment one of them is released the simulated kernel must not have the
+//! request in flight nor hold an unprocessed completion for it in a mapped completion ring
+//! (set-up included); a released block stays mapped, so a use after free by the code under test
+//! does not take the process down and a second release is counted.
 //!
-//! Thorough tier: all 120 orders of a fixed five-object population, and a corroboration on the
-//! real kernel (no simulator) that only counts `/proc/self/fd`, `/proc/self/maps` and live heap
+//! Thorough tier: all 120 orders of a fixed five-object population, a second exhaustive family
+//! (ring, an fd with an in-flight zero-copy send, a hard fd with an in-flight read: all 30
+//! admissible orders of the five drops x all placements of two kernel completions), and a
+//! corroboration on the real kernel (no simulator) that only counts `/proc/self/fd`, `/proc/self/maps` and live heap
 //! blocks.
 
 use std::collections::BTreeMap;
@@ -43,6 +56,19 @@ enum Ist {
     Inflight,
     Done,
     Finished,
+    /// Two-step operations only: in flight, the result (F_MORE) processed, notification outstanding.
+    Mid,
+    /// As `Mid`, the future dropped before the result was processed (abandoned, state alive).
+    AbMid,
+    /// Abandoned, both completions processed during set-up: the state is gone at the start.
+    AbDone,
+}
+
+impl Ist {
+    /// The future exists when the teardown starts.
+    fn has_future(self) -> bool {
+        !matches!(self, Ist::AbMid | Ist::AbDone)
+    }
 }
 
 #[derive(Clone, Copy, Debug, PartialEq, Eq)]
@@ -50,7 +76,12 @@ enum Kind {
     Read,
     Accept,
     Socket,
+    /// `fd.send(buf).zc()`: completes in two steps.
+    SendZc,
 }
+
+/// Length of the buffer of a zero-copy send (= its result).
+const ZC_LEN: usize = 48;
 
 #[derive(Clone, Copy, Debug, PartialEq, Eq)]
 enum Obj {
@@ -76,6 +107,8 @@ struct Plan {
     fds: usize,
     /// Per AsyncFd: a direct descriptor (slot h of the ring's table) instead of a regular one.
     direct: Vec<bool>,
+    /// Per AsyncFd (regular ones only): the kernel does not cancel requests on this descriptor.
+    hard: Vec<bool>,
     /// (fd the future borrows, or None for one that owns a SubmissionQueue; kind; starting state)
     ops: Vec<(Option<usize>, Kind, Ist)>,
     pools: usize,
@@ -85,6 +118,17 @@ struct Plan {
 
 const H13: &str = "fd-dropped-after-ring";
 const H14: &str = "abandoned-ops-beyond-cq-capacity";
+const H28: &str = "op-in-flight-after-ring-drop";
+
+impl Plan {
+    fn two_step(&self, o: usize) -> bool {
+        self.ops[o].1 == Kind::SendZc
+    }
+    /// The kernel does not cancel the request of operation `o`.
+    fn survives(&self, o: usize) -> bool {
+        self.ops[o].0.is_some_and(|h| self.hard[h])
+    }
+}
 
 fn fake_fd(h: usize) -> i32 {
     1_000_000 + h as i32
@@ -123,10 +167,24 @@ fn json_obj(o: &Obj) -> String {
     }
 }
 
+fn coq_nats(xs: impl Iterator<Item = usize>) -> String {
+    let v: Vec<String> = xs.map(|x| format!("{x}%nat")).collect();
+    format!("[{}]", v.join("; "))
+}
+
 fn coq_plan(p: &Plan, lens: (usize, usize, usize)) -> String {
     let mut s = format!(
-        "{{| t_fixed := {}; t_pop := {{| pp_d := {{| d_sqn := {}%nat; d_cqn := {}%nat; d_len_sq := {}%N; d_len_sqes := {}%N; d_len_cq := {}%N |}}; pp_clones := {}%nat; pp_fds := {}%nat; pp_ops := [",
-        fixed_model(), p.sqn, p.cqn, lens.0, lens.1, lens.2, p.clones, p.fds
+        "{{| t_fixed := {}; t_pop := {{| pp_d := {{| d_sqn := {}%nat; d_cqn := {}%nat; d_len_sq := {}%N; d_len_sqes := {}%N; d_len_cq := {}%N; d_two := {}; d_surv := {} |}}; pp_clones := {}%nat; pp_fds := {}%nat; pp_ops := [",
+        fixed_model(),
+        p.sqn,
+        p.cqn,
+        lens.0,
+        lens.1,
+        lens.2,
+        coq_nats((0..p.ops.len()).filter(|o| p.two_step(*o))),
+        coq_nats((0..p.ops.len()).filter(|o| p.survives(*o))),
+        p.clones,
+        p.fds
     );
     for (i, (on, _, st)) in p.ops.iter().enumerate() {
         if i > 0 {
@@ -142,6 +200,9 @@ fn coq_plan(p: &Plan, lens: (usize, usize, usize)) -> String {
             Ist::Inflight => "IInflight",
             Ist::Done => "IDone",
             Ist::Finished => "IFinished",
+            Ist::Mid => "IMid",
+            Ist::AbMid => "IAbMid",
+            Ist::AbDone => "IAbDone",
         };
         let _ = write!(s, "({on}, {st})");
     }
@@ -172,8 +233,8 @@ fn coq_plan(p: &Plan, lens: (usize, usize, usize)) -> String {
 
 fn json_plan(p: &Plan, kernel: &str) -> String {
     let mut s = format!(
-        "{{\"kernel\":\"{kernel}\",\"sq_entries\":{},\"cq_entries\":{},\"sq_clones\":{},\"fds\":{},\"direct\":{:?},\"ops\":[",
-        p.sqn, p.cqn, p.clones, p.fds, p.direct
+        "{{\"kernel\":\"{kernel}\",\"sq_entries\":{},\"cq_entries\":{},\"sq_clones\":{},\"fds\":{},\"direct\":{:?},\"not_cancelable\":{:?},\"ops\":[",
+        p.sqn, p.cqn, p.clones, p.fds, p.direct, p.hard
     );
     for (i, (on, k, st)) in p.ops.iter().enumerate() {
         if i > 0 {
@@ -210,7 +271,8 @@ fn gen_order(r: &mut Rng, p: &Plan, ring_bias: u64) -> Vec<Event> {
     let mut objs: Vec<Obj> = vec![Obj::Ring];
     objs.extend((0..p.clones).map(Obj::Clone));
     objs.extend((0..p.fds).map(Obj::Fd));
-    objs.extend((0..p.ops.len()).map(Obj::Op));
+    // Abandoned operations have no future left to drop.
+    objs.extend((0..p.ops.len()).filter(|o| p.ops[*o].2.has_future()).map(Obj::Op));
     objs.extend((0..p.pools).map(Obj::Pool));
     objs.extend((0..p.bufs.len()).map(Obj::Buf));
     // Random keys; an AsyncFd goes after every future that borrows it (what the borrow checker
@@ -240,9 +302,10 @@ fn gen_order(r: &mut Rng, p: &Plan, ring_bias: u64) -> Vec<Event> {
     let mut idx: Vec<usize> = (0..objs.len()).collect();
     idx.sort_by_key(|i| (key[i], *i));
     let mut events: Vec<Event> = idx.into_iter().map(|i| Event::Drop(objs[i])).collect();
-    // The kernel finishes some requests on its own, somewhere.
+    // The kernel takes the next step of some requests on its own, anywhere: before the first drop,
+    // after the Ring is gone, after the last drop.
     if !p.ops.is_empty() {
-        for _ in 0..r.below(3) {
+        for _ in 0..r.below(5) {
             let o = r.below(p.ops.len() as u64) as usize;
             let at = r.below(events.len() as u64 + 1) as usize;
             events.insert(at, Event::KComplete(o));
@@ -254,8 +317,16 @@ fn gen_order(r: &mut Rng, p: &Plan, ring_bias: u64) -> Vec<Event> {
 fn gen_plan(r: &mut Rng) -> Plan {
     let (sqn, cqn) = *r.pick(&[(2u32, 2u32), (2, 4), (4, 4), (2, 2), (4, 8)]);
     let clones = r.below(3) as usize;
-    let fds = r.below(4) as usize;
+    let mut fds = r.below(4) as usize;
     let n_ops = r.below(5) as usize;
+    // The two new sorts of operation: zero-copy sends in 3 cases of 8, descriptors the kernel
+    // does not cancel on in 3 of 8 (both in 1 of 8; neither in 3 of 8).
+    let ext = r.below(8);
+    let zc_on = ext <= 2;
+    let hard_on = (2..=4).contains(&ext);
+    if zc_on && fds == 0 {
+        fds = 1;
+    }
     let mut ops = Vec::new();
     let mut queued = 0;
     let heavy = r.chance(1, 3); // many running operations: the drain overflows
@@ -279,6 +350,34 @@ fn gen_plan(r: &mut Rng) -> Plan {
         }
         ops.push((on, kind, st));
     }
+    if zc_on {
+        for _ in 0..1 + r.below(2) {
+            let on = Some(r.below(fds as u64) as usize);
+            let mut st = *r.pick(&[
+                Ist::NotStarted,
+                Ist::Queued,
+                Ist::Inflight,
+                Ist::Inflight,
+                Ist::Inflight,
+                Ist::Mid,
+                Ist::Mid,
+                Ist::Done,
+                Ist::Finished,
+                Ist::AbMid,
+                Ist::AbMid,
+                Ist::AbDone,
+            ]);
+            if st == Ist::Queued {
+                if queued >= sqn as usize {
+                    st = Ist::Inflight;
+                } else {
+                    queued += 1;
+                }
+            }
+            let at = r.below(ops.len() as u64 + 1) as usize;
+            ops.insert(at, (on, Kind::SendZc, st));
+        }
+    }
     let pools = r.below(3) as usize;
     let mut bufs = Vec::new();
     for p in 0..pools {
@@ -287,7 +386,8 @@ fn gen_plan(r: &mut Rng) -> Plan {
         }
     }
     let direct: Vec<bool> = (0..fds).map(|_| r.chance(1, 3)).collect();
-    let mut plan = Plan { sqn, cqn, clones, fds, direct, ops, pools, bufs, events: Vec::new() };
+    let hard: Vec<bool> = (0..fds).map(|h| hard_on && !direct[h] && r.chance(1, 2)).collect();
+    let mut plan = Plan { sqn, cqn, clones, fds, direct, hard, ops, pools, bufs, events: Vec::new() };
     let ring_bias = match r.below(4) {
         0 => 0, // ring first
         1 => 1, // ring (nearly) last
@@ -314,7 +414,84 @@ fn fixed_plan(perm: usize) -> Option<Plan> {
     if pos(Obj::Op(0)) > pos(Obj::Fd(0)) {
         return None;
     }
-    Some(Plan { sqn: 2, cqn: 2, clones: 1, fds: 1, direct: vec![false], ops: vec![(Some(0), Kind::Read, Ist::Inflight)], pools: 1, bufs: vec![], events })
+    Some(Plan {
+        sqn: 2,
+        cqn: 2,
+        clones: 1,
+        fds: 1,
+        direct: vec![false],
+        hard: vec![false],
+        ops: vec![(Some(0), Kind::Read, Ist::Inflight)],
+        pools: 1,
+        bufs: vec![],
+        events,
+    })
+}
+
+/// Second exhaustive family: ring, fd0 with an in-flight zero-copy send (op0) on it, fd1 — which
+/// the kernel does not cancel on — with an in-flight read (op1) on it; every one of the 30 orders
+/// of the five drops that keep each future before its fd, combined with every placement of two
+/// kernel completions (targets (op0, op0), (op0, op1), (op1, op0); positions 0 <= i <= j <= 5
+/// among the drops: 3 x 21 = 63 placements): 1890 cases.
+const FIXED2_PLACEMENTS: usize = 63;
+const FIXED2_ORDERS: usize = 30;
+
+fn fixed_plan2(index: usize) -> Plan {
+    let objs = [Obj::Ring, Obj::Fd(0), Obj::Op(0), Obj::Fd(1), Obj::Op(1)];
+    let mut orders: Vec<Vec<Obj>> = Vec::new();
+    for perm in 0..120 {
+        let mut idx: Vec<usize> = (0..5).collect();
+        let mut k = perm;
+        let mut order = Vec::new();
+        for n in (1..=5).rev() {
+            order.push(objs[idx.remove(k % n)]);
+            k /= n;
+        }
+        let pos = |o: Obj| order.iter().position(|e| *e == o).unwrap();
+        if pos(Obj::Op(0)) < pos(Obj::Fd(0)) && pos(Obj::Op(1)) < pos(Obj::Fd(1)) {
+            orders.push(order);
+        }
+    }
+    assert_eq!(orders.len(), FIXED2_ORDERS);
+    let order = &orders[index / FIXED2_PLACEMENTS];
+    let pl = index % FIXED2_PLACEMENTS;
+    let targets = [(0usize, 0usize), (0, 1), (1, 0)][pl / 21];
+    let mut ij = Vec::new();
+    for i in 0..=5usize {
+        for j in i..=5usize {
+            ij.push((i, j));
+        }
+    }
+    assert_eq!(ij.len(), 21);
+    let (i, j) = ij[pl % 21];
+    let mut events: Vec<Event> = Vec::new();
+    for (n, o) in order.iter().enumerate() {
+        if i == n {
+            events.push(Event::KComplete(targets.0));
+        }
+        if j == n {
+            events.push(Event::KComplete(targets.1));
+        }
+        events.push(Event::Drop(*o));
+    }
+    if i == 5 {
+        events.push(Event::KComplete(targets.0));
+    }
+    if j == 5 {
+        events.push(Event::KComplete(targets.1));
+    }
+    Plan {
+        sqn: 2,
+        cqn: 2,
+        clones: 0,
+        fds: 2,
+        direct: vec![false, false],
+        hard: vec![false, true],
+        ops: vec![(Some(0), Kind::SendZc, Ist::Inflight), (Some(1), Kind::Read, Ist::Inflight)],
+        pools: 0,
+        bufs: vec![],
+        events,
+    }
 }
 
 // ---------------------------------------------------------------------------------------------
@@ -324,6 +501,7 @@ enum Fut {
     Read(Pin<Box<a10::io::Read<'static, Vec<u8>>>>),
     Accept(Pin<Box<a10::net::MultishotAccept<'static>>>),
     Socket(Pin<Box<a10::net::Socket>>),
+    SendZc(Pin<Box<a10::net::Send<'static, Vec<u8>>>>),
 }
 
 fn words<T>(x: &T) -> Vec<usize> {
@@ -338,6 +516,7 @@ fn box_addr_of(f: &Fut, not: usize) -> usize {
         Fut::Read(f) => words(&**f),
         Fut::Accept(f) => words(&**f),
         Fut::Socket(f) => words(&**f),
+        Fut::SendZc(f) => words(&**f),
     };
     let cands: Vec<usize> = ws
         .into_iter()
@@ -353,6 +532,7 @@ fn poll_fut(f: &mut Fut) -> i32 {
     match f {
         Fut::Read(f) => match f.as_mut().poll(&mut ctx) {
             Poll::Pending => 0,
+            // The buffer comes back to the caller, who lets go of it here.
             Poll::Ready(_) => 1,
         },
         Fut::Socket(f) => match f.as_mut().poll(&mut ctx) {
@@ -367,6 +547,13 @@ fn poll_fut(f: &mut Fut) -> i32 {
             Poll::Ready(Some(_)) => 2,
             Poll::Ready(None) => 1,
         },
+        Fut::SendZc(f) => match f.as_mut().poll(&mut ctx) {
+            Poll::Pending => 0,
+            Poll::Ready(r) => {
+                assert!(matches!(r, Ok(n) if n == ZC_LEN), "the zero-copy send returns the result of its first completion");
+                1
+            }
+        },
     }
 }
 
@@ -377,6 +564,13 @@ struct World {
     fds: Vec<Option<Box<a10::AsyncFd>>>,
     futs: Vec<Option<Fut>>,
     boxes: Vec<usize>,
+    /// Per operation: the heap buffer its state owns (0: none).
+    op_bufs: Vec<usize>,
+    /// Per operation: frees of the state box / of the buffer seen during set-up.
+    setup_box_frees: Vec<usize>,
+    setup_buf_frees: Vec<usize>,
+    /// Oracle failures found while the starting states were built.
+    setup_problems: Vec<String>,
     pools: Vec<Option<a10::io::ReadBufPool>>,
     bgid: Vec<u16>,
     pool_ring: Vec<usize>,
@@ -396,7 +590,96 @@ fn kernel_result(k: Kind) -> i32 {
         Kind::Read => 0,
         Kind::Accept => -libc::ENOTSOCK,
         Kind::Socket => -libc::EMFILE,
+        Kind::SendZc => 0, // the notification; the result step is (ZC_LEN, F_MORE)
     }
+}
+
+// ---- free-time probe ---------------------------------------------------------------------------
+// (state box, buffer) of every operation of the running case, for the probe: plain statics, the
+// probe runs inside the allocator.
+const PAIRS_CAP: usize = 32;
+static mut PAIRS: [(usize, usize); PAIRS_CAP] = [(0, 0); PAIRS_CAP];
+static mut PAIRS_N: usize = 0;
+
+const P_INFLIGHT: u8 = 1; // the simulated kernel has the request in flight
+const P_CQE: u8 = 2; // a completion for it sits in the completion ring [head, tail) or on the overflow list
+const P_BUSY: u8 = 4; // the simulator could not be asked
+const P_OVERFLOW: u8 = 8; // ... one of them on the overflow list (nobody can be processing that one)
+
+#[allow(static_mut_refs)]
+fn set_pairs(boxes: &[usize], bufs: &[usize]) {
+    unsafe {
+        PAIRS_N = 0;
+        for (b, u) in boxes.iter().zip(bufs.iter()) {
+            if PAIRS_N < PAIRS_CAP {
+                PAIRS[PAIRS_N] = (*b, *u);
+                PAIRS_N += 1;
+            }
+        }
+    }
+}
+
+/// What the simulated kernel knows about the block at `addr` (a state box or a buffer owned by
+/// one) at the moment it is freed.
+#[allow(static_mut_refs)]
+fn free_probe(addr: usize) -> u8 {
+    let (mut key, mut buf) = (addr, 0usize);
+    unsafe {
+        for i in 0..PAIRS_N {
+            let (b, u) = PAIRS[i];
+            if b == addr || (u != 0 && u == addr) {
+                key = b;
+                buf = u;
+            }
+        }
+    }
+    let bits = simk::try_with(|s| {
+        let mut bits = 0u8;
+        for q in &s.inflight {
+            let a = q.sqe.addr as usize;
+            if (q.sqe.user_data & !1) as usize == key || a == addr || (buf != 0 && a == buf) {
+                bits |= P_INFLIGHT;
+            }
+        }
+        let mut k = 0;
+        while let Some(c) = s.cq_peek(k) {
+            if (c.user_data & !1) as usize == key {
+                bits |= P_CQE;
+            }
+            k += 1;
+        }
+        for c in s.overflow.iter() {
+            if (c.user_data & !1) as usize == key {
+                bits |= P_CQE | P_OVERFLOW;
+            }
+        }
+        bits
+    });
+    bits.unwrap_or(P_BUSY)
+}
+
+/// Items (i) and (ii) of the oracle for one release of a watched block of operation `o`.
+/// `processing`: the release happened inside a call that processes completions (`Ring::poll`,
+/// dropping the `Ring`): the completion being processed is still inside [head, tail) then, so
+/// only one on the overflow list is certainly unprocessed.
+fn judge_release(p: &Plan, what: &str, o: usize, is_box: bool, bits: u8, processing: bool, cq_mapped: bool) -> Option<String> {
+    let name = if is_box { format!("state of op{o}") } else { format!("buffer owned by the state of op{o}") };
+    let (on, kind, st) = p.ops[o];
+    let sort = format!(
+        "{kind:?}{}{}, starting state {st:?}",
+        on.map(|h| format!(" on fd{h}")).unwrap_or_default(),
+        if p.survives(o) { " which the kernel does not cancel" } else { "" }
+    );
+    if bits & P_INFLIGHT != 0 {
+        return Some(format!("{what}: the {name} was released while its request is still in flight ({sort}): the kernel still uses it"));
+    }
+    if bits & P_BUSY != 0 {
+        return Some(format!("{what}: the {name} was released inside a call of the simulated kernel (its tables could not be consulted)"));
+    }
+    if cq_mapped && (bits & P_OVERFLOW != 0 || (!processing && bits & P_CQE != 0)) {
+        return Some(format!("{what}: the {name} was released while a completion for it is still to be processed ({sort})"));
+    }
+    None
 }
 
 /// Build the population and bring every operation into its starting state.
@@ -409,6 +692,15 @@ fn build_world(p: &Plan, r: &mut Rng) -> World {
     let mut maps = [(0usize, 0usize); 3];
     simk::with(|s| {
         assert_eq!((s.sq_entries, s.cq_entries), (p.sqn, p.cqn));
+        // Cancellation as the kernel does it: nothing on a "hard" descriptor is cancelled, a
+        // zero-copy send whose result is out only waits for its notification.
+        s.strict_cancel = true;
+        for h in 0..p.fds {
+            if p.hard[h] {
+                assert!(!p.direct[h]);
+                s.cancel_policy.push((fake_fd(h), false));
+            }
+        }
         for e in &s.log {
             if let Ev::Mmap { len, offset, res_ok: true, addr } = e {
                 let which = match *offset {
@@ -519,47 +811,149 @@ fn build_world(p: &Plan, r: &mut Rng) -> World {
     }
     let _ = simk::take_closes();
 
-    // Operations.
+    // Operations. The state box and the heap buffer it owns are watched.
     let mut futs: Vec<Option<Fut>> = Vec::new();
     let mut boxes = Vec::new();
+    let mut op_bufs = Vec::new();
     for (on, kind, _) in &p.ops {
-        let (fut, not) = match (on, kind) {
+        let fd_of = |h: usize| -> &'static a10::AsyncFd { unsafe { &*(&**fds[h].as_ref().unwrap() as *const a10::AsyncFd) } };
+        let (fut, not, buf) = match (on, kind) {
             (Some(h), Kind::Read) => {
-                let fd: &'static a10::AsyncFd = unsafe { &*(&**fds[*h].as_ref().unwrap() as *const a10::AsyncFd) };
-                (Fut::Read(Box::pin(fd.read(Vec::with_capacity(16)))), fd as *const _ as usize)
+                let fd = fd_of(*h);
+                let v: Vec<u8> = Vec::with_capacity(16);
+                let b = v.as_ptr() as usize;
+                (Fut::Read(Box::pin(fd.read(v))), fd as *const _ as usize, b)
+            }
+            (Some(h), Kind::SendZc) => {
+                let fd = fd_of(*h);
+                let v: Vec<u8> = vec![0x5A; ZC_LEN];
+                let b = v.as_ptr() as usize;
+                (Fut::SendZc(Box::pin(fd.send(v).zc())), fd as *const _ as usize, b)
             }
             (Some(h), _) => {
-                let fd: &'static a10::AsyncFd = unsafe { &*(&**fds[*h].as_ref().unwrap() as *const a10::AsyncFd) };
-                (Fut::Accept(Box::pin(fd.multishot_accept())), fd as *const _ as usize)
+                let fd = fd_of(*h);
+                (Fut::Accept(Box::pin(fd.multishot_accept())), fd as *const _ as usize, 0)
             }
-            (None, _) => (Fut::Socket(Box::pin(a10::net::socket(sq.clone(), a10::net::Domain::IPV4, a10::net::Type::STREAM, None))), shared_ptr),
+            (None, _) => (Fut::Socket(Box::pin(a10::net::socket(sq.clone(), a10::net::Domain::IPV4, a10::net::Type::STREAM, None))), shared_ptr, 0),
         };
         let addr = box_addr_of(&fut, not);
         alloc::watch(addr);
+        if buf != 0 {
+            assert!(alloc::block_of(buf).is_some_and(|b| b.0 == buf), "the operation's buffer is not a heap block");
+            assert!(buf != addr);
+            alloc::watch(buf);
+        }
         boxes.push(addr);
+        op_bufs.push(buf);
         futs.push(Some(fut));
     }
     drop(sq);
+    set_pairs(&boxes, &op_bufs);
+
+    // Releases of watched blocks during set-up are judged like those during the teardown.
+    let n = p.ops.len();
+    let mut setup_box_frees = vec![0usize; n];
+    let mut setup_buf_frees = vec![0usize; n];
+    let mut setup_problems: Vec<String> = Vec::new();
+    // (operation, box?) released legitimately by the stage that is being drained
+    let drain = |stage: &str, processing: bool, allowed: &[(usize, bool)], problems: &mut Vec<String>, bf: &mut Vec<usize>, uf: &mut Vec<usize>| {
+        let what = format!("set-up ({stage})");
+        for (a, bits) in alloc::take_freed_info() {
+            let hit = boxes.iter().position(|x| *x == a).map(|o| (o, true)).or_else(|| op_bufs.iter().position(|x| *x != 0 && *x == a).map(|o| (o, false)));
+            let Some((o, is_box)) = hit else {
+                problems.push(format!("{what}: a pool's memory was released"));
+                continue;
+            };
+            if is_box {
+                bf[o] += 1;
+            } else {
+                uf[o] += 1;
+            }
+            if let Some(f) = judge_release(p, &what, o, is_box, bits, processing, true) {
+                problems.push(f);
+            } else if !allowed.contains(&(o, is_box)) {
+                problems.push(format!(
+                    "{what}: the {} of op{o} was released, which nothing at this point accounts for",
+                    if is_box { "state" } else { "buffer" }
+                ));
+            }
+        }
+        let bad = alloc::take_bad_frees();
+        if bad > 0 {
+            problems.push(format!("{what}: {bad} free(s) of memory that was not allocated (double free)"));
+        }
+    };
     let req_of = |addr: usize| simk::with(|s| s.inflight.iter().find(|q| (q.sqe.user_data & !1) as usize == addr).map(|q| q.req));
+    let posted_of = |addr: usize| simk::with(|s| s.inflight.iter().find(|q| (q.sqe.user_data & !1) as usize == addr).map(|q| q.posted));
+    let _ = alloc::take_bad_frees();
+    drain("creating the futures", false, &[], &mut setup_problems, &mut setup_box_frees, &mut setup_buf_frees);
     for (i, (_, kind, st)) in p.ops.iter().enumerate() {
-        if matches!(st, Ist::Inflight | Ist::Done | Ist::Finished) {
-            assert_eq!(poll_fut(futs[i].as_mut().unwrap()), 0);
-            let queued = simk::with(|s| s.pending_sqes());
-            assert!(queued.last().is_some_and(|q| (q.user_data & !1) as usize == boxes[i]), "user_data is not the state's address");
+        if matches!(st, Ist::NotStarted | Ist::Queued) {
+            continue;
+        }
+        let two = *kind == Kind::SendZc;
+        assert!(two || matches!(st, Ist::Inflight | Ist::Done | Ist::Finished), "starting state {st:?} needs a two-step operation");
+        let (pf, bf, uf) = (&mut setup_problems, &mut setup_box_frees, &mut setup_buf_frees);
+        // Inflight: the submission is queued by the first poll and consumed by Ring::poll.
+        assert_eq!(poll_fut(futs[i].as_mut().unwrap()), 0);
+        let queued = simk::with(|s| s.pending_sqes());
+        assert!(queued.last().is_some_and(|q| (q.user_data & !1) as usize == boxes[i]), "user_data is not the state's address");
+        if op_bufs[i] != 0 {
+            assert!(queued.last().is_some_and(|q| q.addr as usize == op_bufs[i]), "the submission does not name the watched buffer");
+        }
+        assert!(simk::with(|s| s.cq_ready()) == 0);
+        setup_ring_poll(&mut ring);
+        let req = req_of(boxes[i]).expect("operation in flight");
+        drain(&format!("op{i} submitted"), true, &[], pf, bf, uf);
+        if *st == Ist::Inflight {
+            continue;
+        }
+        if !two {
+            // Done / Finished of a single-completion operation.
+            simk::with(|s| s.complete(req, kernel_result(*kind), 0));
             setup_ring_poll(&mut ring);
-            let req = req_of(boxes[i]).expect("operation in flight");
-            if matches!(st, Ist::Done | Ist::Finished) {
-                simk::with(|s| s.complete(req, kernel_result(*kind), 0));
+            drain(&format!("op{i}: completion processed"), true, &[], pf, bf, uf);
+        } else {
+            // The result of the zero-copy send (F_MORE: the notification follows).
+            simk::with(|s| s.complete(req, ZC_LEN as i32, abi::CQE_F_MORE));
+            if matches!(st, Ist::AbMid | Ist::AbDone) {
+                // Abandoned before the result is processed: Running -> Dropped, a cancellation is queued.
+                drop(futs[i].take());
+                drain(&format!("op{i}: future dropped with the result posted"), false, &[], pf, bf, uf);
+            }
+            setup_ring_poll(&mut ring); // the completion ring is not empty: no enter; the result is processed
+            drain(&format!("op{i}: result (F_MORE) processed"), true, &[], pf, bf, uf);
+            if bf[i] > 0 {
+                pf.push(format!("set-up: the state of op{i} was released when its result completion (IORING_CQE_F_MORE) was processed; the notification is outstanding"));
+            }
+            assert_eq!(posted_of(boxes[i]), Some(1), "the zero-copy send stays in flight after its result");
+            if matches!(st, Ist::Done | Ist::Finished | Ist::AbDone) {
+                simk::with(|s| s.complete(req, 0, abi::CQE_F_NOTIF));
                 setup_ring_poll(&mut ring);
-                if *st == Ist::Finished {
-                    let f = futs[i].as_mut().unwrap();
-                    let mut rounds = 0;
-                    while poll_fut(f) != 1 {
-                        rounds += 1;
-                        assert!(rounds < 3, "operation does not finish");
-                    }
+                let allowed: &[(usize, bool)] = if *st == Ist::AbDone { &[(i, false), (i, true)] } else { &[] };
+                let before = bf[i];
+                drain(&format!("op{i}: notification processed"), true, allowed, pf, bf, uf);
+                if *st == Ist::AbDone && bf[i] != before + 1 {
+                    pf.push(format!("set-up: the state of the abandoned op{i} was released {} times when its notification (the final completion) was processed", bf[i] - before));
                 }
             }
+            if matches!(st, Ist::AbMid | Ist::AbDone) {
+                // The queued ASYNC_CANCEL is consumed now: EALREADY (only the notification is
+                // outstanding) / ENOENT (finished).
+                assert!(simk::with(|s| s.cq_ready()) == 0);
+                setup_ring_poll(&mut ring);
+                drain(&format!("op{i}: cancellation consumed"), true, &[], pf, bf, uf);
+            }
+        }
+        if *st == Ist::Finished {
+            let f = futs[i].as_mut().unwrap();
+            let mut rounds = 0;
+            while poll_fut(f) != 1 {
+                rounds += 1;
+                assert!(rounds < 3, "operation does not finish");
+            }
+            // The buffer goes back to the caller (read) or is dropped with the result (send).
+            drain(&format!("op{i}: result taken"), false, &[(i, false)], pf, bf, uf);
         }
     }
     for (i, (_, _, st)) in p.ops.iter().enumerate() {
@@ -567,12 +961,32 @@ fn build_world(p: &Plan, r: &mut Rng) -> World {
             assert_eq!(poll_fut(futs[i].as_mut().unwrap()), 0);
         }
     }
-    let _ = alloc::take_freed();
+    drain("queueing", false, &[], &mut setup_problems, &mut setup_box_frees, &mut setup_buf_frees);
     let cursor = simk::with(|s| {
         assert!(s.cq_ready() == 0 && s.overflow.is_empty(), "set-up left completions behind");
+        let queued = p.ops.iter().filter(|o| o.2 == Ist::Queued).count();
+        assert_eq!(s.sq_pending() as usize, queued, "set-up left submissions behind");
         s.log.len()
     });
-    World { ring: Some(ring), ring_fd, clones, fds, futs, boxes, pools, bgid, pool_ring, pool_bufs, bufs, maps, cursor }
+    World {
+        ring: Some(ring),
+        ring_fd,
+        clones,
+        fds,
+        futs,
+        boxes,
+        op_bufs,
+        setup_box_frees,
+        setup_buf_frees,
+        setup_problems,
+        pools,
+        bgid,
+        pool_ring,
+        pool_bufs,
+        bufs,
+        maps,
+        cursor,
+    }
 }
 
 fn fd_is_open(fd: i32) -> bool {
@@ -606,15 +1020,29 @@ fn sim_case(p: &Plan, r: &mut Rng, silent: &Arc<Mutex<Option<String>>>) -> Case 
     // Strict: a free of a block that is not live (a second free) is counted.
     alloc::enable(true);
     alloc::unwatch_all();
+    // Released operation states and buffers stay mapped and are never handed out again; what the
+    // simulated kernel knows about a block is recorded at the moment it is released.
+    alloc::quarantine(true);
+    alloc::set_probe(Some(free_probe));
     let mut w = build_world(p, r);
     let mut obs: Vec<i128> = Vec::new();
     let mut pr = Problems { list: Vec::new() };
     let mut tags: Vec<String> = Vec::new();
+    for f in std::mem::take(&mut w.setup_problems) {
+        pr.add(f);
+    }
 
     let mut ring_open = true; // as last observed
     let mut ring_dropped = false;
     let mut unmapped = [0usize; 3];
-    let mut box_frees = vec![0usize; p.ops.len()];
+    // Releases during set-up count (the state of an abandoned, finished zero-copy send; the
+    // buffer a finished operation handed back), but are not part of the observation.
+    let mut box_frees = w.setup_box_frees.clone();
+    let mut buf_frees = w.setup_buf_frees.clone();
+    let mut inflight_after_ring = vec![false; p.ops.len()];
+    let mut kcomplete_after_ring = false;
+    let mut notif_after_ring = false;
+    let mut two_step_freed_in_drain = false;
     let mut pool_frees = vec![[0usize; 2]; p.pools];
     let mut unregistered = vec![0usize; p.pools];
     let mut fd_closes = vec![0usize; p.fds];
@@ -639,23 +1067,40 @@ fn sim_case(p: &Plan, r: &mut Rng, silent: &Arc<Mutex<Option<String>>>) -> Case 
             Event::Drop(Obj::Pool(q)) => drop(w.pools[*q].take()),
             Event::Drop(Obj::Buf(b)) => drop(w.bufs[*b].take()),
             Event::KComplete(o) => {
+                // The next step of the request, if it is in flight: the result of a zero-copy
+                // send whose result is due (F_MORE: it stays in flight), else the final completion
+                // (the notification of a zero-copy send). Also when the Ring is gone: the
+                // simulated kernel posts into its own mapping of the completion ring.
                 let addr = w.boxes[*o];
-                let res = kernel_result(p.ops[*o].1);
-                simk::with(|s| {
-                    if let Some(req) = s.inflight.iter().find(|q| (q.sqe.user_data & !1) as usize == addr).map(|q| q.req) {
-                        s.complete(req, res, 0);
+                let kind = p.ops[*o].1;
+                let after_ring = ring_dropped;
+                let step = simk::with(|s| {
+                    let q = s.inflight.iter().find(|q| (q.sqe.user_data & !1) as usize == addr)?;
+                    let (req, posted) = (q.req, q.posted);
+                    if kind == Kind::SendZc && posted == 0 {
+                        s.complete(req, ZC_LEN as i32, abi::CQE_F_MORE);
+                        Some(1)
+                    } else if kind == Kind::SendZc {
+                        s.complete(req, 0, abi::CQE_F_NOTIF);
+                        Some(2)
+                    } else {
+                        s.complete(req, kernel_result(kind), 0);
+                        Some(0)
                     }
                 });
+                if after_ring {
+                    kcomplete_after_ring = true;
+                    if step == Some(2) {
+                        notif_after_ring = true;
+                    }
+                }
             }
         }));
         if res.is_err() {
             let msg = silent.lock().unwrap().take().unwrap_or_default();
             pr.add(format!("{what} panicked: {msg}"));
         }
-        let bad = alloc::take_bad_frees();
-        if bad > 0 {
-            pr.add(format!("{what}: {bad} free(s) of memory that was not allocated (double free)"));
-        }
+        let bad = alloc::take_bad_frees(); // reported below, after the releases it belongs to
         ring_open = ring_open && fd_is_open(w.ring_fd);
         match ev {
             Event::Drop(Obj::Ring) => {
@@ -788,12 +1233,34 @@ fn sim_case(p: &Plan, r: &mut Rng, silent: &Arc<Mutex<Option<String>>>) -> Case 
         }
         // The pools' memory is the allocator's business; frees of watched blocks, in order. An
         // address can be handed out again after its first free, so only that one is counted; a
-        // second free of the same block is what `take_bad_frees` reports.
-        for a in alloc::take_freed() {
+        // second free of the same block is what `take_bad_frees` reports. For the operation states
+        // and their buffers (quarantined: never handed out again) the probe has recorded what the
+        // simulated kernel knew at the moment of the release.
+        let processing = matches!(ev, Event::Drop(Obj::Ring));
+        let cq_mapped = !ring_dropped || processing; // the Ring was not dropped before this event started
+        let mut bufs_now: Vec<usize> = Vec::new();
+        for (a, bits) in alloc::take_freed_info() {
             if let Some(o) = w.boxes.iter().position(|x| *x == a) {
                 box_frees[o] += 1;
+                if let Some(f) = judge_release(p, &what, o, true, bits, processing, cq_mapped) {
+                    pr.add(f);
+                }
                 if box_frees[o] == 1 {
                     obs.extend([5, 0, o as i128]);
+                    if processing && p.two_step(o) {
+                        two_step_freed_in_drain = true;
+                    }
+                } else {
+                    pr.add(format!(
+                        "{what}: the state of op{o} was released a second time (it was used after its release{})",
+                        if processing { ": a completion for it was processed afterwards" } else { "" }
+                    ));
+                }
+            } else if let Some(o) = w.op_bufs.iter().position(|x| *x != 0 && *x == a) {
+                buf_frees[o] += 1;
+                bufs_now.push(o);
+                if let Some(f) = judge_release(p, &what, o, false, bits, processing, cq_mapped) {
+                    pr.add(f);
                 }
             } else if let Some(q) = w.pool_ring.iter().position(|x| *x == a) {
                 pool_frees[q][0] += 1;
@@ -811,6 +1278,15 @@ fn sim_case(p: &Plan, r: &mut Rng, silent: &Arc<Mutex<Option<String>>>) -> Case 
                     }
                     obs.extend([5, 2, q as i128]);
                 }
+            }
+        }
+        if bad > 0 {
+            pr.add(format!("{what}: {bad} free(s) of memory that was not allocated (double free)"));
+        }
+        // No future is polled during the teardown: a buffer goes with the state that owns it.
+        for o in bufs_now {
+            if box_frees[o] == 0 {
+                pr.add(format!("{what}: the buffer owned by the state of op{o} was released, the state was not"));
             }
         }
         for h in sync_closes.drain(..) {
@@ -835,8 +1311,24 @@ fn sim_case(p: &Plan, r: &mut Rng, silent: &Arc<Mutex<Option<String>>>) -> Case 
         }
         if let Event::Drop(Obj::Ring) = ev {
             leftovers_at_ring_drop = ready > 0 || ovf > 0;
-            if inflight > 0 {
-                pr.add(format!("{inflight} request(s) still in flight after the ring was dropped: not cancelled"));
+            // Still in flight now: only what a cancellation cannot finish (a request on a
+            // descriptor the kernel does not cancel on; a zero-copy send that waits for its
+            // notification) may be.
+            let left: Vec<(u64, u32)> = simk::with(|s| s.inflight.iter().map(|q| (q.sqe.user_data, q.posted)).collect());
+            let mut not_cancelled = 0;
+            for (ud, posted) in left {
+                match w.boxes.iter().position(|a| *a == (ud & !1) as usize) {
+                    Some(o) => {
+                        inflight_after_ring[o] = true;
+                        if !(p.survives(o) || (p.two_step(o) && posted > 0)) {
+                            not_cancelled += 1;
+                        }
+                    }
+                    None => not_cancelled += 1,
+                }
+            }
+            if not_cancelled > 0 {
+                pr.add(format!("{not_cancelled} cancelable request(s) still in flight after the ring was dropped: not cancelled"));
             }
             let pending = simk::with(|s| s.sq_pending());
             if pending > 0 {
@@ -878,8 +1370,25 @@ fn sim_case(p: &Plan, r: &mut Rng, silent: &Arc<Mutex<Option<String>>>) -> Case 
         }
     }
     let mut h14 = 0;
+    let mut h28 = 0;
     for o in 0..p.ops.len() {
+        if box_frees[o] > 0 && w.op_bufs[o] != 0 && buf_frees[o] == 0 {
+            pr.add(format!("the state of op{o} was released, the buffer it owns never was"));
+        }
+        if box_frees[o] == 0 && buf_frees[o] > 0 && p.ops[o].2 != Ist::Finished {
+            pr.add(format!("the buffer owned by the state of op{o} was released, the state never was"));
+        }
         match box_frees[o] {
+            0 if inflight_after_ring[o] => {
+                h28 += 1;
+                pr.known(
+                    format!(
+                        "the state (and buffer) of op{o} was never released: its request was still in flight after the Ring was dropped ({}); nobody processes its completion any more",
+                        if p.survives(o) { "it survived the blanket cancellation" } else { "notification outstanding" }
+                    ),
+                    H28,
+                );
+            }
             0 if leftovers_at_ring_drop => {
                 h14 += 1;
                 pr.known(
@@ -893,15 +1402,44 @@ fn sim_case(p: &Plan, r: &mut Rng, silent: &Arc<Mutex<Option<String>>>) -> Case 
     }
     simk::retire(w.ring_fd);
     alloc::unwatch_all();
+    alloc::set_probe(None);
+    alloc::quarantine(false);
+    set_pairs(&[], &[]);
 
     tags.push(format!("sq:{}/cq:{}", p.sqn, p.cqn));
     tags.push(format!("objects:{}", 1 + p.clones + p.fds + p.ops.len() + p.pools + p.bufs.len()));
     let ring_pos = p.events.iter().filter(|e| matches!(e, Event::Drop(_))).position(|e| *e == Event::Drop(Obj::Ring)).unwrap();
     let n_drops = p.events.iter().filter(|e| matches!(e, Event::Drop(_))).count();
     tags.push(if ring_pos == 0 { "ring:first".into() } else if ring_pos + 1 == n_drops { "ring:last".into() } else { "ring:middle".into() });
-    for (on, _, st) in &p.ops {
+    for (o, (on, _, st)) in p.ops.iter().enumerate() {
         tags.push(format!("op:{:?}", st));
         tags.push(if on.is_some() { "op:on-fd".into() } else { "op:owns-sq".into() });
+        if p.two_step(o) {
+            tags.push(format!("op2:{:?}", st));
+            // Abandoned before its first completion: the future is dropped before the kernel took
+            // any step of the request and before the Ring is dropped.
+            if matches!(st, Ist::Inflight | Ist::Queued) {
+                let first = p.events.iter().position(|e| matches!(e, Event::KComplete(x) if *x == o) || *e == Event::Drop(Obj::Ring) || *e == Event::Drop(Obj::Op(o)));
+                if first.is_some_and(|i| p.events[i] == Event::Drop(Obj::Op(o))) {
+                    tags.push("two-step:abandoned-before-first".into());
+                }
+            }
+        }
+        if p.survives(o) {
+            tags.push(format!("surv:{:?}", st));
+        }
+    }
+    if kcomplete_after_ring {
+        tags.push("kcomplete-after-ring".into());
+    }
+    if notif_after_ring {
+        tags.push("two-step:notif-after-ring".into());
+    }
+    if two_step_freed_in_drain {
+        tags.push("two-step:freed-in-drain".into());
+    }
+    if h28 > 0 {
+        tags.push("h28:state-leaked".into());
     }
     if h13 > 0 {
         tags.push("h13:descriptor-leaked".into());
@@ -947,7 +1485,7 @@ fn real_case(r: &mut Rng, heavy: bool) -> Case {
     let n_ops = if heavy { 5 + r.below(3) as usize } else { r.below(4) as usize };
     let n_pools = r.below(2) as usize;
     let clones = r.below(3) as usize;
-    let mut plan = Plan { sqn, cqn: 2 * sqn, clones, fds: n_fds, direct: vec![false; n_fds], ops: Vec::new(), pools: n_pools, bufs: Vec::new(), events: Vec::new() };
+    let mut plan = Plan { sqn, cqn: 2 * sqn, clones, fds: n_fds, direct: vec![false; n_fds], hard: vec![false; n_fds], ops: Vec::new(), pools: n_pools, bufs: Vec::new(), events: Vec::new() };
     for _ in 0..n_ops {
         let st = if heavy { Ist::Inflight } else { *r.pick(&[Ist::NotStarted, Ist::Queued, Ist::Inflight, Ist::Inflight]) };
         plan.ops.push((Some(r.below(n_fds as u64) as usize), Kind::Read, st));
@@ -1142,9 +1680,10 @@ pub fn run(args: &Args) -> i32 {
     }));
     let n_random = args.n.unwrap_or(if args.thorough { 20_000 } else { 1_200 });
     let n_fixed = if args.thorough { 120 } else { 0 };
+    let n_fixed2 = if args.thorough { FIXED2_ORDERS * FIXED2_PLACEMENTS } else { 0 };
     let n_real = if args.thorough { 48 } else { 0 };
     let root = Rng::new(args.seed ^ 0xC12);
-    let cases = out::run_forked(&args.out, n_random + n_fixed + n_real, 12, &|i| {
+    let cases = out::run_forked(&args.out, n_random + n_fixed + n_fixed2 + n_real, 12, &|i| {
         let mut r = root.fork(i as u64);
         if i < n_random {
             let plan = gen_plan(&mut r);
@@ -1166,8 +1705,13 @@ pub fn run(args: &Args) -> i32 {
                     nontrivial: false,
                 },
             }
+        } else if i < n_random + n_fixed + n_fixed2 {
+            let plan = fixed_plan2(i - n_random - n_fixed);
+            let mut c = sim_case(&plan, &mut r, &silent);
+            c.tags.push("exhaustive-zc-surv".into());
+            c
         } else {
-            real_case(&mut r, (i - n_random - n_fixed) % 8 == 7)
+            real_case(&mut r, (i - n_random - n_fixed - n_fixed2) % 8 == 7)
         }
     });
     let _ = std::panic::take_hook();
@@ -1175,6 +1719,7 @@ pub fn run(args: &Args) -> i32 {
     let extra = [
         ("random_cases", n_random.to_string()),
         ("exhaustive_orders", n_fixed.to_string()),
+        ("exhaustive_zc_surv_cases", n_fixed2.to_string()),
         ("real_kernel_cases", n_real.to_string()),
         ("model_variant", out::jstr(if fixed_model() { "drop_ring_fixed" } else { "drop_ring (as in /repo)" })),
     ];
